@@ -4,7 +4,7 @@
 Require Extraction.
 Require Import ExtrOcamlBasic.
 From Redo Require Import Base.Bytes Paths.Norm Paths.Rel DoFiles.Candidates LogRec.Meta Build.Model.
-From Redo Require Tokens.Model Sched.Locks Sched.OnceRun LogRec.Catlog Sqlite.Wal.
+From Redo Require Tokens.Model Sched.Locks Sched.BuildLock Sched.OnceRun LogRec.Catlog Sqlite.Wal.
 
 Extraction Language OCaml.
 Extraction "model.ml"
@@ -13,7 +13,7 @@ Extraction "model.ml"
   format parse parse_done_text done_text
   init_world run_history read_stamp first_runid stamp_eqb
   Tokens.Model.apply Tokens.Model.init Tokens.Model.Q Tokens.Model.find
-  Sched.Locks.lapply Sched.Locks.empty
+  Sched.Locks.lapply Sched.Locks.empty Sched.BuildLock.blapply
   LogRec.Catlog.run_log LogRec.Catlog.render_ev
   Sched.OnceRun.oapply Sched.OnceRun.oinit Sched.OnceRun.olookup
   Sqlite.Wal.wal_step Sqlite.Wal.wal_init Sqlite.Wal.wal_abort.
